@@ -1028,6 +1028,8 @@ def run_case(case, root):
                             cnt('failpack:' + errname(e))
                         finally:
                             env.clear_pack_failure()
+                        if env.lines and env.lines[-1].startswith('pack '):  # it returned: nothing to pack
+                            packed_to[0] = max(packed_to[0], int(env.lines[-1].split()[1]))
                         boundary('pack-failed')             # nothing was packed: nothing may have changed
                     elif kind == 'pack':
                         if not txns or V['dirty'] or V['created'] or V['root']:
